@@ -43,6 +43,8 @@ def c07(run):
     run.validate("maccmd", t, "Trace_maccmd", label="(V) full-domain values", chunk=100000)
     t = run.record("maccmd", "streams", n=T(run, 3000, 60000))
     run.validate("maccmd", t, "Trace_maccmd", label="(V) command streams", chunk=5000)
+    t = run.record("maccmd", "decodeN", n=T(run, 600, 30000))
+    run.validate("maccmd", t, "Trace_maccmd", label="(V) single commands decoded into long-lived payload / MACCommand values that served the CID before, in either direction", chunk=50000)
     t = run.record("maccmd", "lookup")
     run.validate("maccmd", t, "Trace_maccmd", label="(V) registry sizes")
     # registry: (D) all registration histories x streams; (R) every history in a fresh process; (V) random histories
@@ -259,6 +261,8 @@ def c11(run):
         run.validate("ident", t, "Trace_ident", label="(V) structured + random NetIDs x address patterns", chunk=8000)
     t = run.record("ident", "repr", n=T(run, 1500, 60000))
     run.validate("ident", t, "Trace_ident", label="(V) text/binary/database representations", chunk=4000)
+    t = run.record("ident", "concurrent", n=T(run, 6, 100))
+    run.validate("ident", t, "Trace_ident", label="(V) eight goroutines, one NetID each (all types), SetAddrPrefix / IsNetID in tight loops: every distinct result", chunk=8000)
     run.require_kinds("ident/prefix", "ident/repr")
     run.rc = run.finish(assumptions=["addressing rules of LoRaWAN 1.1 sec. 6.1.1 / Backend Interfaces in spec/lorawan/NetID.tla", "DevAddr/identifier values are seeded samples (NetIDs exhaustive in the thorough tier)"],
                         exhaustive=False)
